@@ -471,6 +471,66 @@ class Fingerprints(Harness):
         yield 'text-fingerprints', got == want_text
 
 
+class AuditHostKey(Harness):
+    """the whole real audit() of a server whose host-key probe is answered with a well-formed reply carrying an RSA key of b bits (first connection: KEXINIT with a
+    symbolic unknown cipher riding along; probe connection: banner, KEXINIT, KEX reply): the JSON document reports b as the key size for the advertised RSA names,
+    one ssh-rsa fingerprint pair equal to the standard fingerprints of the presented blob, and the threshold notes for b."""
+    prop, ob = PROP, 'O3'
+    width = 64
+
+    def __init__(self, bits, names):
+        self.bits, self.names = bits, tuple(names)
+        self.name = 'audithostkey-%d-%s' % (bits, '+'.join(names))
+
+    def params(self):
+        return {'bits': self.bits, 'names': list(self.names)}
+
+    def inputs(self):
+        return {'unk': zx.fresh_str('unk', 2, ((0x61, 0x7A),))}
+
+    def blob(self):
+        S = AE.sshstr
+        n = b'\x00' + b'\x80' + b'\x00' * (self.bits // 8 - 2) + b'\x01'
+        return S(b'ssh-rsa') + S(b'\x01\x00\x01') + S(n)
+
+    def run(self, M, inp):
+        from props.c09 import BANNER
+        S = AE.sshstr
+        if zx.active():
+            zx.cur().stdout = []
+        pk = AE.frame(AE.kexinit_payload(['curve25519-sha256'], list(self.names), ['aes128-ctr', inp['unk']], ['hmac-sha2-256']))
+        reply = AE.frame(bytes([31]) + S(self.blob()) + S(b'\x05' * 32) + S(b'sig'))
+        conns = [AE.Conn([BANNER, pk])] + [AE.Conn([BANNER, pk, reply]) for _ in range(4)]
+        cj = OL.CaptureJson()
+        with AE.patched(M.ssh_audit, json=cj):
+            r = AE.run_audit(M, conns, json=True)
+        if isinstance(r['ret'], Exc) or not cj.docs:
+            return {'exc': r['ret'] if isinstance(r['ret'], Exc) else Exc('NoJson', 'no document')}
+        d = cj.docs[-1][0]
+        return {'keys': [(e['algorithm'], e.get('keysize'), e['notes'].get('fail', []), e['notes'].get('warn', [])) for e in d['key']],
+                'fps': [(e['hostkey'], e['hash_alg'], e['hash']) for e in d['fingerprints']], 'nconn': len(r['net'].made)}
+
+    def check(self, inp, obs):
+        if 'exc' in obs:
+            yield 'no-exception', False
+            return
+        b = self.bits
+        yield 'one-probe-for-the-whole-rsa-family', obs['nconn'] == 2
+        yield 'key-size-reported-for-every-advertised-rsa-name', [(a, sz) for a, sz, _, _ in obs['keys']] == [(n, b) for n in self.names]
+        small = 'using small %d-bit modulus' % b
+        for a, sz, f, w in obs['keys']:
+            if b < 2048:
+                yield 'failure-below-2048', small in f
+            elif b < 3072:
+                yield 'warning-2048..3071', small not in f and W2K in w
+            else:
+                yield 'no-size-note-from-3072', small not in f and W2K not in w
+        blob = self.blob()
+        sha = base64.b64encode(hashlib.sha256(blob).digest()).decode().rstrip('=')
+        md5 = ':'.join('%02x' % x for x in hashlib.md5(blob).digest())
+        yield 'one-fingerprint-pair-for-the-family==standard-fingerprints-of-the-blob', obs['fps'] == [('ssh-rsa', 'SHA256', sha), ('ssh-rsa', 'MD5', md5)]
+
+
 def tasks(tier):
     q = tier == 'quick'
     T = []
@@ -505,6 +565,9 @@ def tasks(tier):
     for kt, ca in [('ssh-rsa', ''), ('rsa-sha2-512', ''), ('ssh-ed25519', ''), ('ssh-rsa-cert-v01@openssh.com', 'ssh-rsa'), ('rsa-sha2-512-cert-v01@openssh.com', 'ssh-rsa'), ('rsa-sha2-256-cert-v01@openssh.com', 'ssh-ed25519'), ('ssh-rsa-cert-v01@openssh.com', 'ssh-ed25519'),
                    ('ssh-ed25519-cert-v01@openssh.com', 'ssh-rsa'), ('ssh-ed25519-cert-v01@openssh.com', 'ecdsa-sha2-nistp256')]:
         T.append(Reporting(kt, ca))
+    for bits in ((1024, 2048, 3072) if q else (1024, 1536, 2048, 3008, 3072, 4096, 8192)):
+        for names in ((('ssh-rsa',), ('rsa-sha2-512', 'rsa-sha2-256', 'ssh-rsa')) if q else (('ssh-rsa',), ('rsa-sha2-256',), ('rsa-sha2-512', 'rsa-sha2-256', 'ssh-rsa'), ('ssh-rsa', 'rsa-sha2-512'))):
+            T.append(AuditHostKey(bits, names))
     for types in [('ssh-rsa',), ('rsa-sha2-512',), ('rsa-sha2-256', 'ssh-ed25519'), ('rsa-sha2-512', 'rsa-sha2-256', 'ssh-rsa'), ('ssh-ed25519', 'ssh-rsa'), ('ssh-ed25519-cert-v01@openssh.com', 'ssh-ed25519'),
                   ('ecdsa-sha2-nistp256', 'ssh-dss', 'ssh-ed25519'), ('rsa-sha2-256', 'ssh-rsa-cert-v01@openssh.com')]:
         T.append(Fingerprints(types))
@@ -512,6 +575,8 @@ def tasks(tier):
 
 
 def harness_by_name(name, params):
+    if name.split(':')[1].startswith('audithostkey'):
+        return AuditHostKey(params['bits'], params['names'])
     k = name.split(':')[1].split('-')[0]
     p = params
     if k == 'extract':
